@@ -1181,3 +1181,18 @@ Proof. eexists _, _. vm_compute. split; reflexivity. Qed.
 
 Lemma frames_spec ms tl : Forall small ms -> incomplete tl -> frames (flat_map frame ms ++ tl) = (ms, tl).
 Proof. intros H1 H2. apply parses_frames, parses_flat_map; assumption. Qed.
+
+(* ------------------------------------------------------------------------------------ *)
+(* Data read in the same read_conn_packets() loop as a disconnect (open finding)          *)
+(* ------------------------------------------------------------------------------------ *)
+(* The unrestricted claim "the messages delivered do not depend on how the stream and the
+   disconnect that follows it are grouped into read events" is FALSE for the pinned code: a
+   read that fills the buffer makes the loop read again, and if that read reports EOF the
+   connection is closed with the bytes just read still unparsed. *)
+Theorem data_before_disconnect_refuted :
+  exists (pa : list Z -> bool) (bytes : list Z) b1 b2,
+    (* one read event: a full read, then EOF in the same loop *)
+    run_reads pa true buf_create [[RdBytes false bytes true; RdBytes false [] false]] = Ok (b1, [], Closed) /\
+    (* two read events: the same bytes, EOF seen by the next event *)
+    run_reads pa true buf_create [[RdBytes false bytes false]; [RdBytes false [] false]] = Ok (b2, [ex_msg1], Closed).
+Proof. exists ex_pa, (frame ex_msg1). eexists _, _. split; vm_compute; reflexivity. Qed.
